@@ -257,7 +257,8 @@ func (w *World) NewNodeFor(g int, inst *sim.Instance, created time.Time) *v1.Nod
 			Name:              fmt.Sprintf("n%d-%03d", g, w.nodeSeq[g]),
 			Labels:            map[string]string{gs.Opts.LabelKey: gs.Opts.LabelValue, "kubernetes.io/hostname": inst.ID},
 			CreationTimestamp: metav1.NewTime(created.Truncate(time.Second)),
-			Annotations:       map[string]string{},
+			// annotations other tools leave on nodes, some with empty values
+			Annotations: map[string]string{"node.alpha.kubernetes.io/ttl": "0", "maintenance": "", "alpha.example.com/notes": "", "volumes.kubernetes.io/controller-managed-attach-detach": "true"},
 		},
 		Spec: v1.NodeSpec{ProviderID: inst.ProviderID()},
 		Status: v1.NodeStatus{
